@@ -379,6 +379,7 @@ func (bkt *Bucket) checkAndSet(ki *KeyInfo, v *Payload) error {
 			if Conf.CheckVHash {
 				if v.Ver != 0 {
 					// sync script would be here, e.g. set_raw(k, v, rev=xxx)
+					verifPoint("bucket.cas.samevhash", ki.StringKey)
 					bkt.htree.set(ki, &v.Meta, pos)
 				}
 				return nil
